@@ -25,7 +25,7 @@ CONF = {
     'C03': dict(
         inv=['InvC03', 'InvViews'],
         mc=[('base', ['Submit', 'Move', 'Renew', 'Tick', 'Down', 'Freeze', 'Up', 'RemoveServer', 'AddServer', 'SetPrio'], None)],
-        gen=['base', 'topology', 'failure'], weights=['lease', 'lease', 'failure'],
+        gen=['base', 'topology', 'twins', 'lease'], weights=['lease', 'lease', 'failure'],
         rule='a history counts when some cycle assigns an instance to a (new) server; distinct = distinct environment histories'),
     'C04': dict(
         inv=['InvC04', 'InvViews'],
@@ -48,7 +48,7 @@ CONF = {
         inv=['InvC07', 'InvViews'],
         mc=[('base', ['Submit', 'RemoveApp', 'SetPrio', 'Down', 'Up', 'RemoveServer', 'AddServer', 'Move'], None),
             ('affinity', ['Submit', 'SetPrio', 'RemoveServer', 'Down'], None)],
-        gen=['base', 'affinity', 'failure', 'topology'], weights=['pressure', 'pressure', 'lease'],
+        gen=['base', 'affinity', 'lease', 'topology'], weights=['pressure', 'pressure', 'lease'],
         rule='a history counts when a cycle displaces an instance that was running on an up server and was entitled to stay (so the justification clause is exercised); distinct = distinct environment histories'),
     'C08': dict(
         inv=['InvC08', 'InvViews'],
@@ -116,7 +116,7 @@ def _gen(ctx, prop):
     return out
 
 
-L2_PROPS = {'C01': 40, 'C03': 30, 'C05': 30, 'C08': 30, 'C06': 15, 'C07': 15}
+L2_PROPS = {'C01': 120, 'C03': 80, 'C05': 60, 'C08': 60, 'C06': 20, 'C07': 20}
 
 
 def _l2_traces(ctx, prop, histories=None):
